@@ -82,6 +82,8 @@ def ops():
         "cat_dim_positional": lambda x: torch.cat([x, x], 1), "cat_tensors_kw": lambda x: torch.cat(tensors=[x, x], dim=0), "split_dim_positional": lambda x: torch.split(x, 1, 1), "split_size_kw": lambda x: x.split(split_size=2),
         "split_neg_batch_dim": lambda x: x.split(1, dim=-x.ndim), "cat_neg_batch_dim": lambda x: torch.cat([x, x], dim=-x.ndim), "tensor_split_neg_batch_dim": lambda x: x.tensor_split(2, dim=-x.ndim),
         "unbind_neg_batch_dim": lambda x: x.unbind(-x.ndim), "chunk_neg_batch_dim": lambda x: x.chunk(2, dim=-x.ndim), "index_select_neg_batch_dim": lambda x: x.index_select(-x.ndim, idx(x, 1, 2)), "select_neg_batch_dim": lambda x: x.select(-x.ndim, 1),
+        "split_with_sizes_3": lambda x: x.split_with_sizes([1, 1, 1][: x.shape[0]]), "torch_split_with_sizes_3": lambda x: torch.split_with_sizes(x, [1, 1, 1][: x.shape[0]]), "split_with_sizes_dim1": lambda x: x.split_with_sizes([1, x.shape[1] - 1], dim=1),
+        "collate_sub_batches": lambda x: collate(x, [slice(0, 2), slice(2, None)]), "collate_three": lambda x: collate(x, [slice(0, 1), slice(1, 2), slice(2, None)]), "collate_items": lambda x: collate(x, [0, 1, 2]),
         "rebatch_from_iteration": lambda x: type(x).from_images(list(x)) if hasattr(type(x), "from_images") and len(x) else x, "append_self": lambda x: x.append(x) if hasattr(x, "append") else torch.cat([x, x]),
         "chunk_dim_positional": lambda x: x.chunk(2, 1), "unbind_dim_positional": lambda x: x.unbind(1), "narrow_kw": lambda x: x.narrow(dim=0, start=1, length=2), "select_kw": lambda x: x.select(dim=0, index=1), "tensor_split_dim_kw": lambda x: x.tensor_split(2, dim=0),
         "iterate": lambda x: list(x),
@@ -111,10 +113,20 @@ CARRIER_OVERRIDE = {
     "mean_dim1": lambda c: c.amax(1), "mean_dim1_keep": lambda c: c.amax(1, keepdim=True), "sum_last_keep": lambda c: c.amax(-1, keepdim=True),
     "max_dim0": lambda c: c.sum(0), "sum_all": lambda c: c.amax() * 0 + 7.0,
     "rebatch_from_iteration": lambda c: c, "append_self": lambda c: __import__("torch").cat([c, c]),
+    "collate_sub_batches": lambda c: c, "collate_three": lambda c: c, "collate_items": lambda c: c,
 }
 # operations that reorder, repeat or mix entries along the batch dimension without changing what the generic
 # __torch_function__ looks at (one mechanism: grids are re-attached whenever the shapes happen to match)
 REORDER = {"flip0", "flip_dims", "flipud", "torch_flip0", "roll0", "roll_flat", "index_select0_all", "gather0", "take_along_dim0", "movedim", "permute_01", "transpose01", "cumsum_dim0", "cat0_rev"}
+
+
+def collate(x, parts):
+    r"""Re-assemble a batch from samples (sub-batches or single items) with deepali.data.collate.collate_samples."""
+    from deepali.data.collate import collate_samples
+
+    if not hasattr(x, "grids") or x.shape[0] < 3:
+        return x
+    return collate_samples([{"im": x[p]} for p in parts])["im"]
 
 
 def replay(name, fn, car):
